@@ -12,6 +12,7 @@ import (
 	"strings"
 	"sync"
 
+	"verifharness/drv"
 	"verifharness/evid"
 	"verifharness/lifecyc"
 	"verifharness/tlcrun"
@@ -147,6 +148,37 @@ func init() {
 			take(lifecyc.Run(rng, 2+rng.Intn(4), &gateMu, true))
 		}
 		acc, rej := validateLifecycle(run, scs)
+		// ---- no deadlock in the LMTP delivery: Lmtp.tla (termination, no deadlock)
+		// and every backend program of its bounded instance on the real server;
+		// a final response that never completes is a proven hang
+		lmc := modelCheck("Lmtp", "MC_Lmtp.cfg", 16)
+		lcases := genLmtp(3)
+		nhang := 0
+		{
+			var lwg sync.WaitGroup
+			lsem := make(chan struct{}, 16)
+			for i, c := range lcases {
+				lwg.Add(1)
+				go func(i int, c *lmtpCase) {
+					defer lwg.Done()
+					lsem <- struct{}{}
+					defer func() { <-lsem }()
+					if drv.TooManyHangs() {
+						return
+					}
+					_, err := runLmtpCase(c, i)
+					var stuck *drv.StuckError
+					if err != nil && asStuck(err, &stuck) {
+						mu.Lock()
+						nhang++
+						run.Report(evid.Div{Prop: "C20", Key: "lmtp-deadlock:" + c.Mode + ":" + stuck.Where, Msg: fmt.Sprintf("LMTP recipients %v, backend program %+v -> %s (%s): the command loop waits forever - %v", c.Rcpts, c.Calls, c.Outcome, c.Mode, stuck), Replay: c})
+						mu.Unlock()
+					}
+				}(i, c)
+			}
+			lwg.Wait()
+		}
+		fmt.Printf("C20: Lmtp.tla %d states (no deadlock); %d LMTP backend programs run on the real server, %d hangs\n", lmc.Distinct, len(lcases), nhang)
 		// ---- race pass: the schedule families under the Go race detector
 		races, nsched, raceNote := racePass(tier, run.Seed)
 		for pair, rep := range races {
@@ -161,6 +193,7 @@ func init() {
 		run.Finish("model_checking", evid.Coverage{
 			"states": mc.Distinct, "transitions": mc.Generated, "traces_validated_against_impl": len(scs) + nsched,
 			"lifecycle_scenarios": len(scs), "race_schedules": nsched, "racing_pairs": len(races),
+			"lmtp_programs_run": len(lcases), "lmtp_hangs": nhang,
 			"samples": samples, "checker_cmd": mc.Cmd,
 		}, []string{"a data race is below the grain of any TLA+ action: the specification decides which schedules are run and what they must produce, the verdict 'no data race' on each schedule is the Go race detector's on the real code",
 			"the race pass schedules by wall-clock slots only (no channel, mutex or tracer shared with the goroutines under test), takes its verdict only from race reports and crashes, and attributes a report to the unordered pair of go-smtp functions at the top of its two stacks"})
